@@ -26,9 +26,9 @@ type c06Desc struct {
 	Cfg      lab.Cfg `json:"cfg"`
 	FirstGen string  `json:"firstgen,omitempty"` // "" fresh | "discarded" | "finalized": the session under test starts by resuming such a file
 	AllBytes bool    `json:"allbytes,omitempty"`
-	Gen1Puts int     `json:"gen1puts,omitempty"` // blocks of the first generation (default 2)
-	Puts     int     `json:"puts,omitempty"`     // blocks of the session under test (default 1-5)
-	Sha256   bool    `json:"sha256,omitempty"`   // only raw sha2-256 blocks (the common case: one hash code, one digest width in the index)
+	Gen1Puts int     `json:"gen1puts,omitempty"`  // blocks of the first generation (default 2)
+	Puts     int     `json:"puts,omitempty"`      // blocks of the session under test (default 1-5)
+	Sha256   bool    `json:"sha256,omitempty"`    // only raw sha2-256 blocks (the common case: one hash code, one digest width in the index)
 	OnlyEv   int     `json:"only_ev,omitempty"`   // replay: event index + 1
 	OnlyTear int     `json:"only_tear,omitempty"` // replay: tear + 1
 }
